@@ -44,8 +44,12 @@ SM_EXTS = [".sm", ".SM", ".Sm", ".sM"]
 SSC_EXTS = [".ssc", ".SSC", ".SsC", ".sSc"]
 NEAR = ["x.sm.old", "x.ssca", "sm", "ssc", "x.smx", "x.ssc.bak", "xsm", "x.sm_", "SM", "x.ssc~", "x.s", "x.sc", "a.sm.txt", "ssc.x"]
 OTHER = ["banner.png", "BG.JPG", "x.ogg", "song.MP3", "notes.txt", "README", "a.lrc"]
-DIRNAMES = ["Song A", "songB", "empty", "nested", "z", "Extras", "sub dir", "B"]
-BODY_KINDS = ["plain", "plain", "plain", "stray", "stray", "u8", "u8", "cp"]
+# directory names include ones that look like loose files (a song folder may be called "Butterfly.ogg"); names ending in
+# .sm / .ssc are not used for directories: the quantifier builds trees from *file* names with simfile extensions (a
+# directory called "Remix.SM" is taken for an SM file by SimfileDirectory - observed, outside the stated domain)
+DIRNAMES = ["Song A", "songB", "empty", "nested", "z", "Extras", "sub dir", "B", "Butterfly.ogg", "cover.png", "docs.txt", "old.sm.bak"]
+# "straycp": stray text AND bytes that only a fallback code page decodes (options must survive the fallback attempts)
+BODY_KINDS = ["plain", "plain", "plain", "stray", "stray", "u8", "u8", "cp", "straycp", "strayu8"]
 DEFAULT_ENCODINGS = ["utf-8", "cp1252", "cp932", "cp949"]
 
 
@@ -70,7 +74,7 @@ def ext_of(name):
 
 def title_for(relpath, kind):
     t = relpath.replace("/", "|")
-    if kind in ("u8", "cp"):
+    if kind in ("u8", "cp", "straycp", "strayu8"):
         return "café " + t
     return t
 
@@ -78,11 +82,11 @@ def title_for(relpath, kind):
 def body_bytes(relpath, kind, ext):
     title = title_for(relpath, kind)
     head = "#VERSION:0.83;\n" if ext == ".ssc" else ""
-    if kind == "stray":
+    if kind in ("stray", "straycp", "strayu8"):
         text = f"{head}#TITLE:{title};\nstray text\n#ARTIST:someone;\n"
     else:
         text = f"{head}#TITLE:{title};\n#ARTIST:someone;\n"
-    return text.encode("cp1252" if kind == "cp" else "utf-8")
+    return text.encode("cp1252" if kind in ("cp", "straycp") else "utf-8")
 
 
 def outcome(data, kind, strict, encoding):
@@ -96,7 +100,7 @@ def outcome(data, kind, strict, encoding):
             continue
     if text is None:
         return ("exc", "UnicodeDecodeError")
-    if kind == "stray" and strict:
+    if kind in ("stray", "straycp", "strayu8") and strict:
         return ("exc", "MSDParserError")
     line = [l for l in text.split("\n") if l.startswith("#TITLE:")][0]
     return ("title", line[len("#TITLE:"):-1])
